@@ -331,6 +331,18 @@ def warmup(kind):
             s2 = server.get_next_available_stream_id(is_unidirectional=True)
             server.send_stream_data(s2, b"y" * 100, end_stream=True)
             pump()
+        elif kind == "finished":
+            # streams that are finished in both directions (their state is discarded): later frames for them must be ignored
+            sid = client.get_next_available_stream_id()
+            client.send_stream_data(sid, b"req", end_stream=True)
+            u = client.get_next_available_stream_id(is_unidirectional=True)
+            client.send_stream_data(u, b"uni", end_stream=True)
+            pump()
+            server.send_stream_data(sid, b"resp", end_stream=True)
+            s2 = server.get_next_available_stream_id(is_unidirectional=True)
+            server.send_stream_data(s2, b"uni", end_stream=True)
+            pump()
+            pump()
         elif kind == "keyupdate":
             client.request_key_update()
             client.send_ping(1)
@@ -373,7 +385,7 @@ def frames_strategy():
         {
             "kind": st.just("frames"),
             "role": st.sampled_from(["server", "client"]),
-            "warmup": st.sampled_from(["plain", "streams", "streams", "keyupdate", "cid"]),
+            "warmup": st.sampled_from(["plain", "streams", "streams", "finished", "finished", "keyupdate", "cid"]),
             "small": st.booleans(),
         }
     ).flatmap(lambda d: ops_strategy(d["role"]).map(lambda ops: dict(d, ops=ops)))
@@ -709,10 +721,25 @@ def raw_case(ctx, case):
                 pool = [d for x, d in flights] + nxt
                 a, b = pool[inp[1] % len(pool)], pool[inp[2] % len(pool)]
                 data = mutate(a, inp[3])[: inp[4] % 1500] + b
+            elif kind == "retry":
+                # a Retry with a valid integrity tag (anyone who saw the client's first Initial can compute it) and a token of any size
+                from vlib import refquic as R
+
+                try:
+                    dcid = sut.host_cid
+                    odcid = sut._peer_cid.cid if inp[2] else bytes(8)
+                    data = R.build_retry(sut._version or R.V1, dcid, bytes([0x5A] * 8), bytes(inp[1]), odcid)
+                except Exception:  # noqa
+                    data = b""
+            elif kind == "close":
+                # the application closes; whatever the network did before, the transmit calls must keep working
+                guard("close", sut.close, error_code=inp[1], reason_phrase=inp[2])
+                data = None
             else:
                 data = b""
             now += 0.001
-            guard("receive_datagram", sut.receive_datagram, data, src if not inp[-1] == "othersrc" else ("8.8.8.8", 53), now)
+            if data is not None:
+                guard("receive_datagram", sut.receive_datagram, data, src if not inp[-1] == "othersrc" else ("8.8.8.8", 53), now)
             for _ in range(3):
                 if dead[0]:
                     break
@@ -763,6 +790,8 @@ def raw_strategy():
         st.tuples(firsts, st.sampled_from([b"\x00\x00\x00\x01", b"\x6b\x33\x43\xcf", b"\x00\x00\x00\x00", b"\x1a\x2a\x3a\x4a"]), st.binary(max_size=60), st.sampled_from([0, 1100, 1200, 1500, 4000, 65000])).map(lambda t: bytes([t[0]]) + t[1] + t[2] + bytes(t[3])),
     )
     inp = st.one_of(
+        st.tuples(st.just("retry"), st.sampled_from([0, 16, 100, 1000, 1100, 1140, 1150, 1160, 1200, 3000]), st.booleans()),
+        st.tuples(st.just("close"), st.sampled_from([0, 0x100]), st.sampled_from(["", "bye", "x" * 2000])),
         st.tuples(st.just("bytes"), rand),
         st.tuples(st.just("genuine"), st.integers(0, 20)),
         st.tuples(st.just("mutated"), st.integers(0, 20), mut),
